@@ -428,8 +428,8 @@ def run(ctx):
             else:
                 chk.violation("R20.a", load, s, f"frames are sorted by `{kt}`, which is not their numeric index", loc=load.loc(s))
 
-    _name_filters(ctx, save, load)
-    _legend_labels(ctx)
+    ctx.attempt(_name_filters, ctx, save, load)
+    ctx.attempt(_legend_labels, ctx)
 
     # ---------------------------------------------------------------- R20.b
     try:
@@ -664,7 +664,22 @@ def run(ctx):
     okc = True
     itx = ctx.norm.xexpr(frames, lp.iter)
     is_enum = isinstance(itx, ast.Call) and isinstance(itx.func, ast.Name) and itx.func.id == "enumerate" and itx.args
-    if not (is_enum and isinstance(lp.target, ast.Tuple) and len(lp.target.elts) == 2 and all(isinstance(e, ast.Name) for e in lp.target.elts)):
+    counter_form = None
+    if not is_enum and isinstance(lp.target, ast.Name):
+        # an explicit frame counter:  n = K; for rec in history: ...save(n)...; n += 1
+        incs = [st for st in lp.body if isinstance(st, ast.AugAssign) and isinstance(st.target, ast.Name) and isinstance(st.op, ast.Add)
+                and isinstance(st.value, ast.Constant) and st.value.value == 1]
+        svf_ = calls_in(lp, "savefig")
+        if len(incs) == 1 and svf_ and _p(incs[0]) > _p(svf_[0]):
+            cname = incs[0].target.id
+            init = [d for d in ctx.flow.defs(frames).of(cname) if d[0] == "value" and isinstance(d[1], ast.Constant)]
+            others = [d for d in ctx.flow.defs(frames).of(cname) if not (d[0] == "value" and isinstance(d[1], ast.Constant)) and d[0] != "aug"]
+            if len(init) == 1 and not others:
+                counter_form = (cname, init[0][1])
+    if counter_form is not None:
+        itx = ast.Call(func=ast.Name(id="enumerate", ctx=ast.Load()), args=[lp.iter], keywords=[ast.keyword(arg="start", value=counter_form[1])])
+        is_enum = True
+    if not (is_enum and (counter_form is not None or (isinstance(lp.target, ast.Tuple) and len(lp.target.elts) == 2 and all(isinstance(e, ast.Name) for e in lp.target.elts)))):
         reord = list(reorder_ops(itx))
         if reord:
             okc = False
@@ -674,7 +689,10 @@ def run(ctx):
     else:
         start = next((k.value for k in itx.keywords if k.arg == "start"), itx.args[1] if len(itx.args) > 1 else None)
         hist = itx.args[0]
-        iv, rec = lp.target.elts[0].id, lp.target.elts[1].id
+        if counter_form is not None:
+            iv, rec = counter_form[0], lp.target.id
+        else:
+            iv, rec = lp.target.elts[0].id, lp.target.elts[1].id
         hist_text = ast.unparse(hist)
         reord = list(reorder_ops(hist)) or (isinstance(hist, ast.Subscript) and isinstance(hist.slice, ast.Slice))
         if reord:
@@ -717,9 +735,18 @@ def run(ctx):
                 if not idx_ok:
                     okc = False
                     chk.violation("R20.c", frames_raw, svf[0], "the frame is not saved under its own index", loc=frames.loc(svf[0]))
+                # a conditional matters when it controls a frame-producing call or
+                # leaves the iteration early; `if verbose: print(...)` does neither
+                frame_calls = {id(disp[0]), id(plot[0]), id(svf[0])}
+
+                def _controls(n):
+                    if isinstance(n, (ast.Break, ast.Continue)):
+                        return True
+                    return any(id(x) in frame_calls or isinstance(x, (ast.Break, ast.Continue, ast.Return, ast.Raise)) for x in ast.walk(n))
+
                 skipping = [
                     n for st in lp.body for n in ast.walk(st)
-                    if isinstance(n, (ast.If, ast.Break, ast.Continue)) and "plot_current_time" not in ast.unparse(n)
+                    if isinstance(n, (ast.If, ast.Break, ast.Continue)) and "plot_current_time" not in ast.unparse(n) and _controls(n)
                 ]
                 if skipping:
                     okc = False
